@@ -309,8 +309,16 @@ func (x *c13) runUDP(tier string, caseNo int) {
 	if tier == "thorough" && caseNo == 0 {
 		npeers = 16384
 	}
+	v6peers := caseNo%5 == 3
+	if v6peers {
+		x.rec.FP("peers-are-ipv6-hosts-of-one-prefix")
+	}
 	for i := 0; i < npeers; i++ {
 		ip := net.IPv4(10, 2, byte(i>>8), byte(1+i%250)).To4()
+		if v6peers {
+			// hosts of one IPv6 prefix (their addresses share the leading groups)
+			ip = net.ParseIP(fmt.Sprintf("2001:db8:2::%x", 1+i))
+		}
 		if i%3 == 1 && i > 0 {
 			ip = x.peers[i-1].IP // another port of the previous peer's IP
 		}
